@@ -28,12 +28,21 @@ const (
 	cookieName = "sid"
 	headerName = "X-Sid"
 	queryName  = "sid"
-
-	// unissuedID is what M presents as "an id in the server's format the server never issued":
-	// the counter KeyGenerator starts at s1, and s0 has the length of the ids users really
-	// hold (a forger knows what ids look like).
-	unissuedID = "s0"
 )
+
+// fmtID is the KeyGenerator's n-th id. Two id formats: a short counter (s1, s2, ...) with the
+// injected storage, and with the built-in storage the shape of the package's DEFAULT generator
+// (utils.UUIDv4: 36 characters, version 4, RFC 4122 variant) with the counter in the last group
+// - deterministic, but indistinguishable in form from what a production server issues, so that
+// anything in the session code that treats well-formed ids differently is on the explored path.
+// fmtID(0) is what M presents as "an id in the server's format the server never issued": the
+// generator starts at 1 and a forger knows what ids look like (same format, same length).
+func (w *world) fmtID(n int) string {
+	if w.cfg.Storage == "memory" {
+		return fmt.Sprintf("00000000-0000-4000-8000-%012d", n)
+	}
+	return "s" + strconv.Itoa(n)
+}
 
 // ---------------------------------------------------------------------------
 // injected storage: TTLs on the harness clock. It is an ordinary map-based third-party
@@ -83,20 +92,21 @@ type view struct {
 }
 
 type obsT struct {
-	Ran     bool     `json:"ran"`
-	Pre     *view    `json:"pre,omitempty"`  // session as handed to the handler
-	Post    *view    `json:"post,omitempty"` // after the handler's action
-	Mid     []*view  `json:"after_each_call,omitempty"` // compound request: the session as read after each of its API calls
+	Ran  bool    `json:"ran"`
+	Pre  *view   `json:"pre,omitempty"`             // session as handed to the handler
+	Post *view   `json:"post,omitempty"`            // after the handler's action
+	Mid  []*view `json:"after_each_call,omitempty"` // compound request: the session as read after each of its API calls
 	// SessObj says where the *Session object handed to this request comes from: "new" (never
 	// seen in this history), "reused:same-client", "reused:other-client" (the pool handed out
 	// an object another client's request used earlier in the history)
-	SessObj  string `json:"session_object,omitempty"`
-	drewPrev bool   // the object is the one the previous session-carrying request used
-	Err     string   `json:"err,omitempty"`  // error of store.Get / GetByID / an action
-	Panic   string   `json:"panic,omitempty"`
-	Gen     []string `json:"generated,omitempty"` // ids the KeyGenerator produced during this request
-	Emit    emission `json:"emitted"`
-	Present string   `json:"presented"`
+	SessObj     string   `json:"session_object,omitempty"`
+	drewPrev    bool     // the object is the one the previous session-carrying request used
+	drewOwnIdle bool     // the object was last used by ANOTHER client's request that called SetIdleTimeout on it
+	Err         string   `json:"err,omitempty"` // error of store.Get / GetByID / an action
+	Panic       string   `json:"panic,omitempty"`
+	Gen         []string `json:"generated,omitempty"` // ids the KeyGenerator produced during this request
+	Emit        emission `json:"emitted"`
+	Present     string   `json:"presented"`
 }
 
 // emission is what the response tells the client about the session id.
@@ -126,10 +136,11 @@ type world struct {
 	m       *model
 	obs     *obsT
 
-	op       Op                         // the operation being executed
-	who      string                     // the client of the request being executed: A | B | M | adm
+	op       Op                          // the operation being executed
+	who      string                      // the client of the request being executed: A | B | M | adm
 	sessUser map[*session.Session]string // every *Session object a handler of this history was handed -> its last user
-	prevSess *session.Session           // the object the previous session-carrying request was handed
+	prevSess *session.Session            // the object the previous session-carrying request was handed
+	ownIdle  map[*session.Session]bool   // objects whose last user called SetIdleTimeout
 
 	fctx        *fasthttp.RequestCtx // Ctx=shared: the one RequestCtx of this history
 	lastID      string               // Ctx=shared: the id the previous id-carrying request on fctx presented
@@ -171,6 +182,8 @@ func (w *world) noteSession(s *session.Session) {
 		o.SessObj = "reused:other-client"
 	}
 	o.drewPrev = seen && w.prevSess == s
+	o.drewOwnIdle = w.ownIdle[s] && prev != w.who
+	w.ownIdle[s] = w.op.Act == "idle"
 	w.sessUser[s] = w.who
 	w.prevSess = s
 }
@@ -183,7 +196,7 @@ func errStr(err error) string {
 }
 
 func newWorld(cfg Cfg) *world {
-	w := &world{cfg: cfg, sessUser: map[*session.Session]string{}}
+	w := &world{cfg: cfg, sessUser: map[*session.Session]string{}, ownIdle: map[*session.Session]bool{}}
 	w.m = newModel(cfg)
 	w.setClock()
 	session.VerifResetPools()
@@ -191,7 +204,7 @@ func newWorld(cfg Cfg) *world {
 		IdleTimeout: IdleS * time.Second,
 		KeyGenerator: func() string {
 			w.counter++
-			id := "s" + strconv.Itoa(w.counter)
+			id := w.fmtID(w.counter)
 			w.gen = append(w.gen, id)
 			w.m.issued[id] = true
 			return id
@@ -211,6 +224,15 @@ func newWorld(cfg Cfg) *world {
 	if cfg.Storage == "injected" {
 		w.inj = &ttlStorage{w: w, data: map[string]ttlEntry{}}
 		sc.Storage = w.inj
+	}
+	// Config.Next: with the injected storage the session middleware also sits in front of the
+	// store-API route and is told to skip it (an application that installs the middleware for a
+	// whole group and handles sessions by hand on some routes); with the built-in storage that
+	// route has no session middleware at all. Either way the store-API handler must find no
+	// middleware-managed session.
+	skipStoreRoute := cfg.Storage == "injected"
+	if skipStoreRoute {
+		sc.Next = func(c fiber.Ctx) bool { return c.Path() == "/st" }
 	}
 	mw, store := session.NewWithStore(sc)
 	w.store = store
@@ -270,6 +292,8 @@ func newWorld(cfg Cfg) *world {
 		case "login":
 			err = m.Session.Regenerate()
 			m.Set(k, v)
+		case "idle": // this session's own idle timeout, used by the save at the end of the request
+			m.Session.SetIdleTimeout(time.Duration(w.op.Idle) * time.Second)
 		default:
 			panic("harness: unknown act " + act)
 		}
@@ -279,7 +303,7 @@ func newWorld(cfg Cfg) *world {
 	})
 
 	// store API
-	app.Get("/st", func(c fiber.Ctx) error {
+	stHandler := func(c fiber.Ctx) error {
 		o := w.obs
 		o.Ran = true
 		sess, err := store.Get(c)
@@ -287,7 +311,7 @@ func newWorld(cfg Cfg) *world {
 			o.Err = "store.Get: " + err.Error()
 			return nil
 		}
-		defer sess.Release()
+		defer func() { sess.Release() }() // whichever object the handler holds at the end
 		w.noteSession(sess)
 		o.Pre = sessView(sess)
 		act, k, v := c.Get("X-Act"), utils.CopyString(c.Get("X-K")), utils.CopyString(c.Get("X-V"))
@@ -311,6 +335,16 @@ func newWorld(cfg Cfg) *world {
 					err = sess.Reset()
 				case "save":
 					err = sess.Save()
+				case "reget": // give the session back and ask the store again, still in this request
+					sess.Release()
+					var again *session.Session
+					if again, err = store.Get(c); err == nil {
+						sess = again
+						w.noteSession(sess)
+					} else {
+						sess = nil // Release of a nil session is a no-op
+						err = fmt.Errorf("second store.Get: %w", err)
+					}
 				default:
 					panic("harness: unknown call " + a.Name)
 				}
@@ -318,6 +352,10 @@ func newWorld(cfg Cfg) *world {
 					break
 				}
 				o.Mid = append(o.Mid, sessView(sess))
+			}
+			if sess == nil {
+				o.Err = errStr(err)
+				return nil
 			}
 		case "get":
 			save = false
@@ -338,6 +376,9 @@ func newWorld(cfg Cfg) *world {
 			err = sess.Reset()
 		case "login":
 			err = sess.Regenerate()
+			sess.Set(k, v)
+		case "idle": // this session's own idle timeout, used by the Save below
+			sess.SetIdleTimeout(time.Duration(w.op.Idle) * time.Second)
 			sess.Set(k, v)
 		case "saveregen":
 			sess.Set(k, v)
@@ -360,7 +401,12 @@ func newWorld(cfg Cfg) *world {
 		o.Err = errStr(err)
 		o.Post = sessView(sess)
 		return nil
-	})
+	}
+	if skipStoreRoute {
+		app.Get("/st", mw, stHandler)
+	} else {
+		app.Get("/st", stHandler)
+	}
 
 	// administrator: store.GetByID / store.Delete on some user's id, no session of its own
 	app.Get("/adm", func(c fiber.Ctx) error {
@@ -373,7 +419,7 @@ func newWorld(cfg Cfg) *world {
 			o.Err = errStr(store.Delete(target))
 		case "resetall":
 			o.Err = errStr(store.Reset())
-		case "getbyid", "getbyidset":
+		case "getbyid", "getbyidset", "getbyiddel", "getbyiddestroy", "getbyidregen", "getbyidreset":
 			sess, err := store.GetByID(target)
 			if err != nil {
 				o.Err = err.Error()
@@ -381,9 +427,27 @@ func newWorld(cfg Cfg) *world {
 			}
 			w.noteSession(sess)
 			o.Pre = sessView(sess)
-			if act == "getbyidset" {
+			// the session has no request context behind it: what is to persist needs Save
+			switch act {
+			case "getbyidset":
 				sess.Set(k, v)
-				o.Err = errStr(sess.Save())
+				err = sess.Save()
+			case "getbyiddel":
+				sess.Delete(k)
+				err = sess.Save()
+			case "getbyiddestroy":
+				err = sess.Destroy()
+			case "getbyidregen":
+				if err = sess.Regenerate(); err == nil {
+					err = sess.Save()
+				}
+			case "getbyidreset":
+				if err = sess.Reset(); err == nil {
+					err = sess.Save()
+				}
+			}
+			if act != "getbyid" {
+				o.Err = errStr(err)
 				o.Post = sessView(sess)
 			}
 			sess.Release()
@@ -561,7 +625,7 @@ func (w *world) exec(op Op) (o *obsT, na bool) {
 		case "evil":
 			o.Present = "evil"
 		case "unissued":
-			o.Present = unissuedID // the server's format and the length of real ids, never issued
+			o.Present = w.fmtID(0) // the server's format and the length of real ids, never issued
 		case "destroyed":
 			o.Present = w.m.lastKilled
 		case "stolen":
